@@ -1995,6 +1995,7 @@ class locked_ref:
         self._file: _GitFile | None = None
         self._realname: Ref | None = None
         self._deleted = False
+        self._written = False
 
     def __enter__(self) -> Self:
         """Enter the context manager and acquire the lock.
@@ -2032,7 +2033,9 @@ class locked_ref:
           traceback: Traceback if an exception occurred
         """
         if self._file:
-            if exc_type is not None or self._deleted:
+            # Committing a lock file nothing was written to would replace the
+            # ref with an empty file; a session that only read is released.
+            if exc_type is not None or self._deleted or not self._written:
                 self._file.abort()
             else:
                 self._file.close()
@@ -2077,6 +2080,7 @@ class locked_ref:
         self._file.truncate()
         self._file.write(new_ref + b"\n")
         self._deleted = False
+        self._written = True
 
     def set_symbolic_ref(self, target: Ref) -> None:
         """Make this ref point at another ref.
@@ -2092,6 +2096,7 @@ class locked_ref:
         self._file.truncate()
         self._file.write(SYMREF + target + b"\n")
         self._deleted = False
+        self._written = True
 
     def delete(self) -> None:
         """Delete the ref file while holding the lock."""
